@@ -2,3 +2,5 @@ import SrProofs.Adaptive
 import SrProofs.Thermal
 import SrProofs.Loops
 import SrProofs.Data
+import SrProofs.Interp
+import SrProofs.H5
